@@ -395,7 +395,7 @@ def _match(S, N):
         except TypeError:
             pass
         n = N.edges.get(VAR, None)
-        if n:
+        if n and S.current is not END:
             restore_state_flag = False
             matches = matches + (S.term,)
             S.skip()
